@@ -36,7 +36,8 @@ CHECKS = {
     'C04': ('Lean 4 invariant by induction over mailbox operations (UID monotonicity, UIDNEXT, APPENDUID/COPYUID pairing) + differential correspondence + history monitor',
             'C04_uid_monotone (any operation list, incl. expunge-highest-then-append), C04_uidnext, C04_appenduid, C04_copyuid_pairing and C15_recover (maildir adoption hands out fresh UIDs only) are proved in Lean. '
             'Tie: APPENDUID/COPYUID/UIDNEXT values are diffed per command between the real dict server and the Lean Server model. Monitor: probe dump after every command on dict and both maildir layouts '
-            '(monotone assignment, no reuse, no resurrection, truthful UIDNEXT/APPENDUID/COPYUID, content pairing) and RENAME histories.',
+            '(monotone assignment, no reuse, no resurrection, truthful UIDNEXT/APPENDUID/COPYUID, content pairing), RENAME and MULTIAPPEND histories, and appends by several connections while another '
+            'process holds the maildir UID list\'s lock file. C04_uidlist_no_reuse: writers that read the list inside its lock never report one UID twice, under any interleaving (UidRW model; tied through its conclusion only).',
             'Trusted: as C01. The crash/restart half of the property is decided by C15\'s check. UIDVALIDITY freshness of a re-created INBOX is an oracle hypothesis of the model (random 32-bit value in the code).',
             'DESIGN.md section 6 C04'),
     'C12': ('Lean 4 frame theorem over the session-command model + differential correspondence + per-command frame monitor',
